@@ -11,6 +11,8 @@ if [ "$1" = "--remove" ]; then
 fi
 d="$1"; mkdir -p "$d"
 [ -d "$d/repo" ] || git -C /repo worktree add --detach "$d/repo" HEAD >/dev/null
+# follow /repo's HEAD (the worktree is only ever modified by applying and reverting patches)
+if git -C "$d/repo" diff --quiet; then git -C "$d/repo" checkout -q --detach "$(git -C /repo rev-parse HEAD)"; fi
 rsync -a --delete --exclude target --exclude replays --exclude .git /verif/ "$d/verif/"
 sed -i "s#\"/repo/#\"$d/repo/#g" "$d/verif/sim/wfsim/Cargo.toml" "$d/verif/sim-miri/Cargo.toml" "$d/verif/sim-miri-rayon/Cargo.toml"
 echo "$d"
